@@ -43,7 +43,7 @@ from rv.ref import crc as R
 from rv.ref import usb2 as U
 
 PROPERTY = "C30"
-CASES = {"quick": 160, "thorough": 1000}
+CASES = {"quick": 128, "thorough": 1000}
 RULE = ("case = one CRC family (crc5 20% / usb2_crc16 35% / usb3_crc16 25% / usb3_crc32 20%): function lanes (crc32: the "
         "module with its register steered to chosen values) driven with zero / ones / one-hot / all-but-one bases of state "
         "and data, one-bit-apart pairs and random pairs (crc5: all 2^11 inputs; usb2 crc16: 256 random pairs of each of the "
@@ -512,7 +512,7 @@ def case_usb2_crc16(rng, tier, res):
             st["value"] = usb2_crc16_next(st["value"], b.get(crc.tx_data))
             st["n"] += 1
 
-    from_reset = [rng.random() < 0.5]
+    from_reset = [rng.random() < 0.7]
 
     def module_driver():
         yield
@@ -653,7 +653,7 @@ def case_usb3_crc16(rng, tier, res):
         elif b.get(crc.advance_crc):
             st["value"] = usb3_crc16_next(st["value"], b.get(crc.data_input))
 
-    from_reset = [rng.random() < 0.5]
+    from_reset = [rng.random() < 0.7]
 
     def module_driver():
         yield
@@ -782,7 +782,7 @@ def case_usb3_crc32(rng, tier, res):
                 st["steps"][k] += 1
                 res.event("usb3_crc32_%dbyte_steps" % k)
 
-    from_reset = [rng.random() < 0.5]
+    from_reset = [rng.random() < 0.7]
 
     def probe(sv, dv, k):
         b.set(crc.clear, 1)
